@@ -81,3 +81,32 @@ Example c13_nonvacuous :
                (mk Z {| k_typ := 1; k_cap := 0; k_opt := 256; k_ord := false; k_err := None; k_ppf := None |} [5; -1])
                (OPush [-2; 3; -4; 7])) = Some [5; -1; 3; 7].
 Proof. vm_compute. reflexivity. Qed.
+
+(* ---- Condition part (model Cond.v, proofs CondProofs.v; the same theorems
+        are also listed in Props/C06.v) ---- *)
+From Stackage Require Import Values CondOps Cond CondSpec CondProofs.
+
+(* SetExpression refuses a Stack while no-nesting is set and keeps the previous expression *)
+Theorem c13_condition_refuses_stack :
+  forall (render : value -> bytes) (ops : list cop) (r : cnd) (outs : list cobs) (x : value),
+    Cond.run render None ops = Ok (r, outs) ->
+    CanNest r = Ok false -> is_stack x = true ->
+    exists r', SetExpression r x = Ok r' /\ Expression r' = Expression r.
+Proof. exact set_expr_stack_refused. Qed.
+Print Assumptions c13_condition_refuses_stack.
+
+(* Condition.CanNest is true exactly when the option is off, and then a Stack is accepted *)
+Theorem c13_condition_cannest :
+  forall (render : value -> bytes) (ops : list cop) (r : cnd) (outs : list cobs),
+    Cond.run render None ops = Ok (r, outs) ->
+    CanNest r = Ok (sp_inited (rev ops) && negb (sp_nonest (rev ops))).
+Proof. exact cond_cannest_iff. Qed.
+Print Assumptions c13_condition_cannest.
+
+(* Condition.IsNesting is true exactly when the expression is a Stack or Stack alias *)
+Theorem c13_condition_isnesting :
+  forall (render : value -> bytes) (ops : list cop) (r : cnd) (outs : list cobs),
+    Cond.run render None ops = Ok (r, outs) ->
+    exists ex, Expression r = Ok ex /\ IsNesting r = Ok (is_stack ex).
+Proof. exact cond_isnesting_iff. Qed.
+Print Assumptions c13_condition_isnesting.
